@@ -540,7 +540,8 @@ def check_offset_provenance(ctx, lib):
         ok = len(nc) == 1
         if ok:
             p = o.of_operand(nc[0]["args"][1])
-            ok = bool(p) and all(x == ("field", ("param", 1), "offset") or (x[0] == "field" and x[2] == "0" and x[1][0] == "call" and x[1][1].endswith("::get")) for x in p)
+            ok = bool(p) and all(x == ("field", ("param", 1), "offset") or (x[0] == "field" and x[2] == "0" and x[1][0] == "call" and x[1][1].endswith(("::get", "::front")) and
+                                                                                 x[1][2][0] == frozenset({("field", ("param", 1), "token_queue")})) for x in p)
         ctx.check(ok, rule, "parser-error-position", "parser errors are located at the current or the peeked token's position", er.span)
 
 
